@@ -49,6 +49,51 @@ CLAIMED["C08"] = {
     "design_ref": "DESIGN.md section 4.4, 5 C08",
 }
 
+CLAIMED["C05"] = {
+    "level": "model_checking",
+    "text": "Codec.tla defines base64 (strict RFC 4648), hex and the incremental UTF-8 machine as pure operators; TLC "
+            "exhaustively checks round trip, canonical form, length predictions and UTF-8 chunking invariance (every split into "
+            "<= 3 chunks; machine = table of well-formed sequences) on alphabets of 4-14 byte values, lengths <= 4-8. Every call "
+            "of the real functions on enumerated vectors (lengths 0..100, every byte value at each position of the final quantum "
+            "x padding shape, capacity need+-1 x pre-existing length 0/1/5, malformed texts, seeded random, all 2-chunkings and "
+            "sampled 3-chunkings) is recorded in two processes (AWS_COMMON_AVX2=0/1) and TLC validates each event against the "
+            "same definitions, which also gives path independence.",
+    "note": "Exhaustive on the model only; the code is covered on ~19k calls per CPU path (quick). 'Bytes written' is observed "
+            "through a canary fill. Code points above U+10FFFF and append-vs-overwrite are left open. Needs an AVX2 host for the "
+            "vector path. Trusted: TLC, adapter projection, ASan. Found F4 and F7 (both repaired by fix: commits).",
+    "technique": "TLA+ spec (Codec.tla) model-checked with TLC + trace validation of real calls on both CPU paths (CodecTrace.tla)",
+    "design_ref": "DESIGN.md section 5 C05",
+}
+CLAIMED["C16"] = {
+    "level": "exploration",
+    "text": "Checked and saturating add/mul/sub (u32/u64/size_t), power-of-two, clz/ctz, min/max and timestamp conversion are "
+            "defined on unbounded naturals (Wide.tla: base-2^15 limbs; quotients are checked by multiplication, never computed). "
+            "TLC checks exhaustively at 6-bit words that the definitions equal integer mathematics and that the transcribed "
+            "portable algorithms compute them. Every helper of every implementation variant (build dispatch, fallback, "
+            "gcc_overflow, x64 asm, gcc_builtin, compiled side by side) is then evaluated on the boundary set {0,1,2^k-1,2^k,"
+            "2^k+1,MAX-1,MAX,floor(MAX/b),floor(MAX/b)+1,...} plus seeded random operands, across the four timestamp units and "
+            "frequencies <= 1e9, and TLC validates each reported result against the definitions.",
+    "note": "Enumerated operand set only (TLC is the oracle, not a state-space search over the code). Float/double min/max not "
+            "covered; the remainder for non-multiple frequencies accepts 0 or untouched (header and code disagree). Trusted: the "
+            "adapter's 15-bit limb split.",
+    "technique": "TLA+ definitions (MathClock.tla, Wide.tla) model-checked at reduced width; TLC as oracle over recorded evaluations of every variant (MathClockTrace.tla)",
+    "design_ref": "DESIGN.md section 5 C16, 4.5",
+}
+CLAIMED["C20"] = {
+    "level": "model_checking",
+    "text": "ManagedThreads.tla transcribes the managed-thread join protocol (count under lock, pending-join list swap, lazy join "
+            "of the predecessor, join_all loop with its count<=1 predicate) and TLC checks, for every completion order of 3-4 "
+            "threads including nested launches: join_all returns only when every thread exited and was joined exactly once and "
+            "count=0, no self/double join, no deadlock, and liveness under fairness. The real aws_thread code runs under the "
+            "controlled scheduler (bounded-preemption systematic exploration of core scenarios + PCT/random schedules of random "
+            "scenarios with manual and managed threads, nested launches and at-exit registrations); TLC validates each trace "
+            "against ThreadsAbs.tla: function once with its argument on its own thread, callbacks once in reverse order on that "
+            "thread before join returns, join_all only after everything finished, count zero, no leak, no unjoined OS thread.",
+    "note": "Sequentially consistent serialised execution, no spurious wake-ups, bounded schedules. Trusted: vsched layer, TLC.",
+    "technique": "TLA+ specs (ManagedThreads.tla impl-shaped, ThreadsAbs.tla abstract) + TLC; controlled-scheduler executions validated by TLC (ThreadsTrace.tla)",
+    "design_ref": "DESIGN.md section 4.4, 5 C20",
+}
+
 NOT_YET = "check not built yet (work in progress in this session; see DESIGN.md section 8 build order)"
 NOT_APPLICABLE = {}
 ALL = ["C%02d" % i for i in range(1, 21)]
